@@ -74,16 +74,16 @@ def gen_program(seed, i):
     rng = random.Random(derive_seed(seed, 'C10', 'prog', i))
     fam = i % 3
     if fam == 0:
-        g = Gen(rng, rt_safe=True, features=('send', 'rand', 'call'))
+        g = Gen(rng, rt_safe=True, features=('send', 'rand', 'call', 'yinf'))
         g.all_seeded = True
     elif fam == 1:
-        g = Gen(rng, rt_safe=True, features=('tempo', 'cond', 'flow', 'send', 'rand', 'call'))
+        g = Gen(rng, rt_safe=True, features=('tempo', 'cond', 'flow', 'send', 'rand', 'call', 'yinf'))
         g.single_clock = rng.choice([-1, 0, 0])
         g.cond_heavy = rng.random() < 0.5
         if g.single_clock == 0 and rng.random() < 0.4:
             g.features.add('beats')
     else:
-        g = Gen(rng, rt_safe=True, features=('pr', 'send', 'rand'))
+        g = Gen(rng, rt_safe=True, features=('pr', 'send', 'rand', 'yinf'))
         g.single_clock = rng.choice([-1, 0])
         if g.single_clock == 0 and rng.random() < 0.5:
             g.features.add('tempo')     # tempo changes while moved tasks are pending
@@ -168,6 +168,8 @@ def normalize(run):
             per.setdefault(e[1], []).append([k, e[2], e[-1]])
         elif k in ('pause', 'resume', 'stop'):
             per.setdefault(e[1], []).append([k, e[2], e[3], e[4]])
+        elif k in ('yinf', 'resumed-after-inf'):
+            per.setdefault(e[1], []).append([k] + list(e[2:]))
         elif k in ('end', 'exc'):
             per.setdefault(e[1], []).append(list(e[:1]) + list(e[2:]))
         elif k in ('tempo', 'beats'):
